@@ -76,6 +76,34 @@ type hShadow struct {
 	B *string `cbor:"2,keyasint,omitempty" json:"b,omitempty"`
 }
 
+// tag forms other than "key,keyasint,omitempty" (sixth seeding round): omitempty directly after the key, the
+// options in the other order, an unknown option in front of omitempty, a JSON member name that needs escaping,
+// the name "-" followed by options (skipped by both walks of the unchanged library)
+type hTagForms struct {
+	P *int    `cbor:"30,omitempty" json:"p,omitempty"`
+	Q *string `cbor:"31,omitempty,keyasint" json:"q,omitzero,omitempty"`
+	R *int    `cbor:"32,keyasint" json:"say \"hi\"\\x\t"`
+	S *int    `cbor:"33,keyasint,omitzero,omitempty" json:"s,omitempty"`
+	T *int    `cbor:"-," json:"-,"`
+	U *int    `cbor:"-,omitempty" json:"-,omitempty"`
+}
+
+// hTagFormsOK: the all-absent value serialises to exactly one entry (R) under its exact name / key, the
+// all-present one to four; both are checked again by the round trip of hValues.
+func hTagFormsOK(count func(v interface{}) (int, bool)) bool {
+	for _, c := range []struct {
+		v    *hTagForms
+		want int
+	}{{&hTagForms{R: pi(1)}, 1}, {&hTagForms{P: pi(0), Q: ps(""), R: pi(2), S: pi(3)}, 4}, {&hTagForms{R: pi(1), T: pi(5), U: pi(6)}, 1}} {
+		n, ok := count(c.v)
+		if !ok || n != c.want {
+			fmt.Printf("bounded: tag forms: %d entries (ok=%v), want %d\n", n, ok, c.want)
+			return false
+		}
+	}
+	return true
+}
+
 // hThorough: the thorough tier widens the stated bounds (govc exports VERIF_TIER to the test run).
 func hThorough() bool { return os.Getenv("VERIF_TIER") == "thorough" }
 
@@ -136,6 +164,8 @@ func hValues() []interface{} {
 	sh := &hShadow{B: ps("outer")}
 	sh.A = pi(4)
 	out = append(out, sh)
+	out = append(out, &hTagForms{R: pi(1)})
+	out = append(out, &hTagForms{P: pi(0), Q: ps(""), R: pi(2), S: pi(3)})
 	out = append(out, &hWithIface{HIface: HInner2{D: pu(9)}, X: pi(3)})
 	out = append(out, &hWithIface{HIface: &HInner2{D: pu(0), C: pb([]byte{})}, X: pi(3)})
 	return out
@@ -218,6 +248,16 @@ func boundedReflectCBOR() (ok bool) {
 			fmt.Printf("bounded: embedded interface %#v: expected keys 4 and 10, got %x (%v)\n", inner, b, err)
 			return false
 		}
+	}
+	if !hTagFormsOK(func(v interface{}) (int, bool) {
+		b, err := SerializeStructToCBOR(em, v)
+		var m map[int]cbor.RawMessage
+		if err != nil || dm.Unmarshal(b, &m) != nil || m[32] == nil {
+			return 0, false
+		}
+		return len(m), true
+	}) {
+		return false
 	}
 	// the all-empty struct
 	type empty struct {
@@ -345,6 +385,16 @@ func boundedReflectJSON() (ok bool) {
 			fmt.Printf("bounded: embedded interface %#v: expected members d and x, got %s (%v)\n", inner, b, err)
 			return false
 		}
+	}
+	if !hTagFormsOK(func(v interface{}) (int, bool) {
+		b, err := SerializeStructToJSON(v)
+		var m map[string]json.RawMessage
+		if err != nil || json.Unmarshal(b, &m) != nil || m["say \"hi\"\\x\t"] == nil {
+			return 0, false
+		}
+		return len(m), true
+	}) {
+		return false
 	}
 	if PopulateStructFromJSON([]byte(`{}`), &hFlat{}) == nil {
 		fmt.Println("bounded: missing mandatory member accepted")
